@@ -31,6 +31,7 @@ PROPS = {
             "rope": (None, ("safety",)),
             "heap": (None, ("safety",)),
             "handlers": (None, ("safety",)),
+            "coldpath": (None, ("safety",)),
             "builtins_binary": (None, ("safety",)),
             "builtins_integer": (None, ("safety",)),
             "builtins_vector": (None, ("safety",)),
@@ -42,6 +43,7 @@ PROPS = {
         "units": {
             "heap": (None, ALL),
             "handlers": (None, ALL),
+            "coldpath": (None, ALL),
         },
         "kani": [],
     },
